@@ -36,6 +36,8 @@ var menu = [][]mapref.DP{
 	// a set series without members (what a forwarder sends for an idle set, and what an aggregator holds
 	// after a flush) carrying the newest timestamp
 	{{Type: "s", Name: "s", Empty: true, TS: 4}},
+	// a counter batch that nets to zero but carries the newest timestamp
+	{{Type: "c", Name: "a", Value: 0, Rate: 1, TS: 5}},
 	// a sampled timer of an existing name under another tag set, after an untagged datapoint in the same map
 	{{Type: "ms", Name: "t", Value: 5, Rate: 1, TS: 1}, {Type: "ms", Name: "t", Value: 7, Rate: 0.25, TS: 1, Tags: []string{"x"}}},
 }
@@ -209,7 +211,12 @@ func (s chanSink) WaitForEvents()                                               
 func (s chanSink) DispatchEvent(context.Context, *gostatsd.Event)               {}
 func (s chanSink) DispatchMetricMap(_ context.Context, mm *gostatsd.MetricMap) { s.got <- mm }
 
+var cloudQueueBroken bool
+
 func cloudQueue(seq []int) {
+	if cloudQueueBroken {
+		return
+	}
 	const ip = gostatsd.Source("10.0.0.9")
 	for variant, inst := range []*gostatsd.Instance{{ID: "i-9", Tags: gostatsd.Tags{"r:1"}}, {ID: "i-9"}, nil} {
 		ci := &fakeCI{ipSink: make(chan gostatsd.Source, 4), info: make(chan gostatsd.InstanceInfo)}
@@ -239,12 +246,20 @@ func cloudQueue(seq []int) {
 		}
 		var got *gostatsd.MetricMap
 		if n > 0 {
-			<-ci.ipSink
-			ci.info <- gostatsd.InstanceInfo{IP: ip, Instance: inst}
+			// each step below is a hand-off the handler completes within microseconds; a minute without it
+			// means the batch was lost inside the stage (reported once, the path is then skipped)
 			select {
-			case got = <-sink.got:
-			case <-time.After(5 * time.Minute):
-				res.Violate("cloud-queue nothing-dispatched", fmt.Sprintf("sequence %v: nothing left the cloud stage after the lookup was answered", seq), map[string]any{"seq": seq, "path": "cloud-queue"})
+			case <-ci.ipSink:
+				ci.info <- gostatsd.InstanceInfo{IP: ip, Instance: inst}
+				select {
+				case got = <-sink.got:
+				case <-time.After(time.Minute):
+					cloudQueueBroken = true
+					res.Violate("cloud-queue nothing-dispatched", fmt.Sprintf("sequence %v: nothing left the cloud stage after the lookup was answered", seq), map[string]any{"seq": seq, "path": "cloud-queue"})
+				}
+			case <-time.After(time.Minute):
+				cloudQueueBroken = true
+				res.Violate("cloud-queue no-lookup", fmt.Sprintf("sequence %v: batches of an unknown source were dispatched but no lookup was requested, so they can never leave the cloud stage", seq), map[string]any{"seq": seq, "path": "cloud-queue"})
 			}
 		}
 		cancel()
